@@ -159,6 +159,42 @@ type runner struct {
 	counts     map[string]int
 	fail       *finding
 	mm         *finding
+
+	park *parkState // a listing is running concurrently (concurrent-listing mode)
+}
+
+// parkState: T1 sits inside FetchContents of a lazy child directory (holding its
+// lock), T2 runs VirtualReadDir on the parent with an attributes mask that needs
+// that lock; the main goroutine keeps mutating until cjoin opens the gate.
+type parkState struct {
+	line    string
+	rd      *rdir // directory being listed
+	d       any
+	child   any // the directory whose lock is held
+	rchild  *rdir
+	f       *fetcher
+	first   uint64
+	k       int
+	start   map[int]*rent  // entries at the start of the listing, by generation
+	cookies map[int]uint64 // their cookies (from the dump taken before the listing)
+	t1Done  chan struct{}
+	t2Done  chan virtual.Status
+	rp      *gatedReporter
+}
+
+type gatedReporter struct {
+	reporter
+	waitFor int // name id whose report is announced on reached (-1: none)
+	reached chan struct{}
+	once    sync.Once
+}
+
+func (rp *gatedReporter) ReportEntry(nextCookie uint64, name path.Component, child virtual.DirectoryChild, attributes *virtual.Attributes) bool {
+	ok := rp.reporter.ReportEntry(nextCookie, name, child, attributes)
+	if ok && rp.waitFor >= 0 && nameID(name.String()) == rp.waitFor {
+		rp.once.Do(func() { close(rp.reached) })
+	}
+	return ok
 }
 
 func newRunner(drv *hx.Driver) *runner {
@@ -680,7 +716,7 @@ func gensKey(d *rdir) string {
 func (r *runner) snapshot() map[any]dirSnap {
 	m := map[any]dirSnap{}
 	for _, p := range r.mDirs {
-		if p == nil {
+		if p == nil || (r.park != nil && p == r.park.child) {
 			continue
 		}
 		if rd := r.rDirOf[p]; rd != nil {
@@ -931,6 +967,10 @@ func (r *runner) apply(line string) {
 		"remove": true, "removeall": true, "removeallchildren": true, "createchildren": true, "createandenter": true,
 		"filter": true, "installhooks": true}
 	if needDir[f[0]] && (d == nil || rd == nil) {
+		r.skip()
+		return
+	}
+	if r.park != nil && r.blockedWhileParked(f, d, rd, arg) {
 		r.skip()
 		return
 	}
@@ -1355,9 +1395,241 @@ func (r *runner) apply(line string) {
 	case "check":
 		r.checkAll(line)
 
+	case "clist":
+		r.clist(line, f)
+
+	case "cjoin":
+		if r.park == nil {
+			r.skip()
+			return
+		}
+		r.cjoin()
+
 	default:
 		r.skip()
 	}
+}
+
+// ---- concurrent-listing mode ------------------------------------------------------
+
+// blockedWhileParked: operations that would need the lock that T1 holds (they
+// would only return after cjoin), or that the mode does not support.
+func (r *runner) blockedWhileParked(f []string, d any, rd *rdir, arg func(int) int) bool {
+	pk := r.park
+	switch f[0] {
+	case "clist", "filter", "check", "fetchfail", "removeallchildren", "installhooks", "newroot":
+		return true
+	}
+	if d == pk.child {
+		return true
+	}
+	onChild := func(dir *rdir, name int) bool {
+		if dir == nil || name < 0 || name >= len(names) {
+			return false
+		}
+		e, ok := dir.ents[r.ref.norm[name]]
+		return ok && e.dir == pk.rchild
+	}
+	switch f[0] {
+	case "rename":
+		d2 := r.implDir(arg(3))
+		if d2 == nil || d2 == pk.child {
+			return true
+		}
+		// the target name must not be the held directory (rename locks it)
+		return onChild(r.rDirOf[d2], arg(4))
+	case "readdir":
+		return true // sequential listings take the same child locks
+	case "createchildren":
+		return arg(2) == 1 // overwrite may have to destroy the held directory
+	case "mkdir", "mknod", "open", "link", "lookupall", "readdirb", "getattr", "newleaf", "deftmpl", "allocfail":
+		return false
+	}
+	if f[0] == "removeall" && rd != nil && validName(arg(2)) {
+		// a recursive removal must not reach the held directory
+		if e, ok := rd.ents[r.ref.norm[arg(2)]]; ok && e.isDir() && r.ref.below(e.dir, pk.rchild) {
+			return true
+		}
+	}
+	// lookup / lookupchild / vremove / remove / removeall / createandenter: not on the held directory
+	return onChild(rd, arg(2))
+}
+
+// clist d n c k: start a listing of d from cookie c (page size k) that will park
+// on the lock of d's lazy child directory n.
+func (r *runner) clist(line string, f []string) {
+	if r.park != nil || len(f) != 5 {
+		r.skip()
+		return
+	}
+	d := r.implDir(atoi(f[1]))
+	n, c, k := atoi(f[2]), atoi(f[3]), atoi(f[4])
+	if d == nil || !validName(n) || c < 0 || k < 1 || r.fetchFail {
+		r.skip()
+		return
+	}
+	rd := r.rDirOf[d]
+	if rd == nil || rd.pending != nil {
+		r.skip()
+		return
+	}
+	e, ok := rd.ents[r.ref.norm[n]]
+	if !ok || e.dir == nil || e.dir.pending == nil || e.dir.pending == r.ref.empty {
+		r.skip()
+		return
+	}
+	var ft *fetcher
+	for _, t := range r.tmpls {
+		if t.ref == e.dir.pending {
+			ft, _ = t.f.(*fetcher)
+		}
+	}
+	if ft == nil {
+		r.skip()
+		return
+	}
+	// from here on the history is judged by the monitor alone (the model's
+	// VirtualReadDir is atomic per page)
+	r.drv = nil
+	got, err := dirOf(d).LookupChild(comp(e.name))
+	cd, _ := got.GetPair()
+	if err != nil || cd == nil || !r.bindRefDir(e.dir, cd) {
+		r.violation("%s: LookupChild(%s) does not return the directory that is there", line, names[e.name])
+		return
+	}
+	if _, ok := r.mDirID[cd]; !ok {
+		r.bindModelDir(len(r.mDirs), cd)
+	}
+	dump, _ := virtual.VerifDumpDirectory(dirOf(d))
+	pk := &parkState{line: line, rd: rd, d: d, child: cd, rchild: e.dir, f: ft, first: uint64(c), k: k,
+		start: rd.gens(), cookies: map[int]uint64{}, t1Done: make(chan struct{}), t2Done: make(chan virtual.Status, 1)}
+	// the entry reported just before the held directory, if the page gets that far
+	pred, pos := -1, 0
+	for _, de := range dump.Entries {
+		id := nameID(de.Name)
+		if ent, ok := rd.ents[nameID(de.NormalizedName)]; ok && ent.name == id {
+			pk.cookies[ent.gen] = de.Cookie
+		}
+		if de.Cookie < uint64(c) || (de.Directory == nil && hiddenPattern.MatchString(de.Name)) {
+			continue
+		}
+		if de.Directory != nil && any(de.Directory) == cd {
+			break
+		}
+		pos++
+		if pos <= k {
+			pred = id
+		}
+	}
+	ft.gate, ft.entered = make(chan struct{}), make(chan struct{})
+	go func() { // T1
+		defer close(pk.t1Done)
+		defer func() { recover() }()
+		dirOf(cd).LookupChild(comp(0))
+	}()
+	<-ft.entered
+	pk.rp = &gatedReporter{reporter: reporter{k: k}, waitFor: pred, reached: make(chan struct{})}
+	started := make(chan struct{})
+	go func() { // T2
+		st := virtual.StatusErrIO
+		defer func() {
+			recover()
+			pk.t2Done <- st
+		}()
+		close(started)
+		st = dirOf(d).VirtualReadDir(ctx, uint64(c), virtual.AttributesMaskChangeID|virtual.AttributesMaskInodeNumber, pk.rp)
+	}()
+	<-started
+	if pred >= 0 {
+		select {
+		case <-pk.rp.reached:
+		case st := <-pk.t2Done:
+			pk.t2Done <- st
+		}
+	} else {
+		time.Sleep(2 * time.Millisecond)
+	}
+	r.park = pk
+	r.flags["concurrent-listing"] = true
+	r.steps++
+	r.counts["op-clist"]++
+}
+
+// cjoin opens the gate, waits for both goroutines and judges the listing.
+func (r *runner) cjoin() {
+	pk := r.park
+	close(pk.f.gate)
+	st := <-pk.t2Done
+	<-pk.t1Done
+	pk.f.gate = nil
+	r.park = nil
+	r.ref.lookup(pk.rchild, 0) // T1's LookupChild initialised the directory
+	r.steps++
+	r.counts["op-cjoin"]++
+	line := pk.line + " … cjoin"
+	if st != virtual.StatusOK {
+		r.violation("%s: concurrent VirtualReadDir answered %s", line, statusName(st))
+		return
+	}
+	page := pk.rp.entries
+	end := pk.rd.gens()
+	seen := map[int]int{}
+	last := pk.first
+	for i, e := range page {
+		if e.cookie <= last {
+			r.violation("%s: entry %d (%s) has cookie %d, not greater than %d: the listing went back", line, i, names[e.name], e.cookie, last)
+			return
+		}
+		last = e.cookie
+		// the entry must have been there at some time during the listing
+		var ent *rent
+		for _, m := range []map[int]*rent{end, pk.start} {
+			for _, x := range m {
+				if x.name == e.name && (ent == nil || x.gen > ent.gen) && r.matches(x, e) {
+					ent = x
+				}
+			}
+		}
+		if ent == nil {
+			r.violation("%s: reported %s, which was not in the directory during the listing (or not that object)", line, names[e.name])
+			return
+		}
+		if !r.ref.visible(ent) {
+			r.violation("%s: hidden file %s was listed", line, names[e.name])
+			return
+		}
+		seen[ent.gen]++
+		if seen[ent.gen] > 1 {
+			r.violation("%s: entry %s reported twice in one page", line, names[e.name])
+			return
+		}
+	}
+	if len(page) < pk.k { // the page ran to the end of the directory
+		for g, ent := range pk.start {
+			if _, still := end[g]; !still || !r.ref.visible(ent) {
+				continue
+			}
+			if ck, ok := pk.cookies[g]; !ok || ck < pk.first {
+				continue
+			}
+			if seen[g] != 1 {
+				r.violation("%s: entry %s existed throughout the listing but was reported %d times", line, names[ent.name], seen[g])
+				return
+			}
+		}
+		r.flags["concurrent-listing-complete"] = true
+	}
+}
+
+// matches: the reported child is the object of the reference entry.
+func (r *runner) matches(x *rent, e irep) bool {
+	if x.isDir() != e.isDir {
+		return false
+	}
+	if x.isDir() {
+		return x.dir.impl == nil || x.dir.impl == e.child
+	}
+	return x.leaf.impl == nil || x.leaf.impl == e.child
 }
 
 // checkListing compares LookupAllChildren / ReadDir with the reference contents.
@@ -1678,6 +1950,9 @@ func (r *runner) tmplOf(f any) *rtmpl {
 // (exactly) and with the reference hierarchy (as a set of entries), validates
 // contents_inv on the real structure and compares link counts.
 func (r *runner) checkAll(line string) {
+	if r.park != nil {
+		return // a directory lock is held on purpose
+	}
 	for id, p := range r.mDirs {
 		if p == nil || r.fail != nil {
 			continue
@@ -1813,6 +2088,9 @@ type generator struct {
 	nextLeaf int
 	nextTmpl int
 	roots    int
+	// histories with listings that run concurrently with the mutations (the model
+	// is dropped at the first such listing, so only some histories have them)
+	concurrent bool
 }
 
 func (g *generator) pickDir() int {
@@ -1931,9 +2209,119 @@ func (g *generator) children(depth int, lines *[]string) string {
 	return s
 }
 
+// absentName returns a name whose normal form is free in rd (-1: none).
+func (g *generator) absentName(rd *rdir, avoid map[int]bool) int {
+	var c []int
+	for n := range names {
+		if _, ok := rd.ents[g.r.ref.norm[n]]; !ok && !avoid[g.r.ref.norm[n]] && !g.r.ref.hidden[n] {
+			c = append(c, n)
+		}
+	}
+	if len(c) == 0 {
+		return -1
+	}
+	return c[g.rnd.Intn(len(c))]
+}
+
+// concurrentScenario: a lazy sub-directory with a gated fetcher between ordinary
+// entries, then a listing that will park on its lock.
+func (g *generator) concurrentScenario() []string {
+	r := g.r
+	var cands []int
+	for id, p := range r.mDirs {
+		if p == nil {
+			continue
+		}
+		if rd := r.rDirOf[p]; rd != nil && !rd.removed && rd.pending == nil {
+			cands = append(cands, id)
+		}
+	}
+	if len(cands) == 0 || r.fetchFail || r.allocFail {
+		return nil
+	}
+	d := cands[g.rnd.Intn(len(cands))]
+	rd := r.rDirOf[r.mDirs[d]]
+	used := map[int]bool{}
+	pick := func() int {
+		n := g.absentName(rd, used)
+		if n >= 0 {
+			used[r.ref.norm[n]] = true
+		}
+		return n
+	}
+	var lines []string
+	visible := 0
+	for _, e := range rd.ents {
+		if r.ref.visible(e) {
+			visible++
+		}
+	}
+	for i := visible; i < 1+g.rnd.Intn(3); i++ {
+		if n := pick(); n >= 0 {
+			lines = append(lines, fmt.Sprintf("open %d %d 1 0", d, n))
+		}
+	}
+	child := pick()
+	if child < 0 {
+		return nil
+	}
+	lines = append(lines, fmt.Sprintf("newleaf %d", g.rnd.Intn(4)), fmt.Sprintf("deftmpl %d L %d", g.rnd.Intn(len(names)), g.nextLeaf),
+		fmt.Sprintf("createchildren %d 0 %d D %d", d, child, g.nextTmpl))
+	for i := g.rnd.Intn(3); i > 0; i-- {
+		if n := pick(); n >= 0 {
+			lines = append(lines, fmt.Sprintf("mkdir %d %d", d, n))
+		}
+	}
+	c := uint64(0)
+	if rs := r.returned[d]; len(rs) > 0 && g.rnd.Chance(1, 3) {
+		c = rs[g.rnd.Intn(len(rs))]
+	}
+	k := 10
+	if g.rnd.Chance(1, 4) {
+		k = 1 + g.rnd.Intn(4)
+	}
+	return append(lines, fmt.Sprintf("clist %d %d %d %d", d, child, c, k))
+}
+
+// whileParked: mostly what makes the parked listing interesting — the entry it
+// waits on goes away, entries before / after it come and go — and the join.
+func (g *generator) whileParked() []string {
+	r, pk := g.r, g.r.park
+	d := r.mDirID[pk.d]
+	switch g.rnd.Pick(5, 5, 3, 3, 4) {
+	case 0:
+		return []string{"cjoin"}
+	case 1: // detach the entry the listing is parked on
+		for _, e := range pk.rd.ents {
+			if e.dir == pk.rchild {
+				d2 := d
+				if g.rnd.Chance(1, 3) {
+					d2 = g.pickDir()
+				}
+				return []string{fmt.Sprintf("rename %d %d %d %d", d, e.name, d2, g.pickName(d2, false))}
+			}
+		}
+		return nil
+	case 2:
+		return []string{fmt.Sprintf("open %d %d 1 0", d, g.pickName(d, false))}
+	case 3:
+		return []string{fmt.Sprintf("vremove %d %d 1 1", d, g.pickName(d, true))}
+	}
+	return nil
+}
+
 // next produces the next op lines from the current abstract state.
 func (g *generator) next() []string {
 	r := g.r
+	if r.park != nil {
+		if ls := g.whileParked(); ls != nil {
+			return ls
+		}
+	} else if g.concurrent && g.rnd.Chance(1, 25) {
+		if ls := g.concurrentScenario(); ls != nil {
+			return ls
+		}
+	}
 	d := g.pickDir()
 	few := g.liveDirs() < 6
 	wDir := 2
@@ -2067,6 +2455,9 @@ func replay(lines []string, drv *hx.Driver, seed uint64) outcome {
 	for _, l := range lines {
 		r.apply(l)
 	}
+	if r.park != nil {
+		r.cjoin()
+	}
 	if !r.dead {
 		r.apply("check")
 	}
@@ -2077,7 +2468,7 @@ func generate(rnd *hx.Rand, drv *hx.Driver, seed uint64, n int) ([]string, outco
 	heartbeat("", true)
 	r := newRunner(drv)
 	r.seed = seed
-	g := &generator{rnd: rnd, r: r, roots: 1}
+	g := &generator{rnd: rnd, r: r, roots: 1, concurrent: rnd.Chance(1, 4)}
 	lines := []string{fmt.Sprintf("config %d %d", b2i(rnd.Chance(1, 2)), b2i(rnd.Chance(1, 2))), "newroot 0"}
 	for _, l := range lines {
 		r.apply(l)
@@ -2101,6 +2492,10 @@ func generate(rnd *hx.Rand, drv *hx.Driver, seed uint64, n int) ([]string, outco
 			r.apply(l)
 		}
 	}
+	if r.park != nil {
+		lines = append(lines, "cjoin")
+		r.cjoin()
+	}
 	if !r.dead {
 		r.apply("check")
 	}
@@ -2112,7 +2507,9 @@ func main() {
 	res := hx.NewResult("dir", o, "random histories (≤300 ops) over ≤2 roots, ~6 live directories and 8 names (case variants, two matching the hidden pattern ^\\._), "+
 		"case-sensitive or case-folding normaliser, FUSE or NFS handle allocator, mixing every Virtual* call with LookupChild/LookupAllChildren/ReadDir/Remove/RemoveAll/"+
 		"RemoveAllChildren/CreateChildren(overwrite, lazy sub-directories)/CreateAndEnterPrepopulatedDirectory/FilterChildren/InstallHooks, paginated VirtualReadDir (page size 1-10, resumed from the "+
-		"last, an earlier or an arbitrary cookie) interleaved with the mutations, fetcher and allocator faults; non-trivial = the history completed a listing that took more than one page, "+
+		"last, an earlier or an arbitrary cookie) interleaved with the mutations, fetcher and allocator faults; in a quarter of the histories also listings that run concurrently with the mutations "+
+		"(clist/cjoin: a VirtualReadDir with a change-ID attribute mask in its own goroutine is parked on the lock of a lazy child directory whose InitialContentsFetcher blocks on a harness gate, the main goroutine renames/removes/creates entries meanwhile, "+
+		"then the gate opens; such interleavings inside one page are covered by the harness and the reference monitor only - the model is dropped for the rest of that history, its readdir theorems quantify over interleavings at page granularity); non-trivial = the history completed a listing that took more than one page, "+
 		"performed a successful rename, a successful remove and a bulk call; distinct = hash of the op list")
 	drv, err := hx.StartDriver("dir")
 	if err != nil {
